@@ -47,26 +47,35 @@ type unit struct {
 	imports []string // other units whose functions this one calls
 	funcs   []string // listed functions (order irrelevant)
 	externs map[string]string // functions of the package that are NOT translated: passed as a parameter (name -> Lean type)
+	owned   bool              // container PARAMETERS may be mutated: the caller hands them over and uses only what is returned
 }
 
 var units = []unit{
-	{"Validate", ".", "Lib", nil, []string{"validate", "validateMap", "validateList", "validateString"}, nil},
-	{"Finalize", ".", "Lib", nil, []string{"finalizeOutput", "finalizeMap", "finalizeList", "finalizeString"}, nil},
+	{"Validate", ".", "Lib", nil, []string{"validate", "validateMap", "validateList", "validateString"}, nil, false},
+	{"Finalize", ".", "Lib", nil, []string{"finalizeOutput", "finalizeMap", "finalizeList", "finalizeString"}, nil, false},
 	{"Util", ".", "Lib", nil, []string{
 		"popMapValue", "toBool", "getMapBoolValue", "hasMapBoolValue", "popMapBoolValue",
 		"toString", "getMapStringValue", "popMapStringValue", "hasListMapBoolValue", "getListMapStringValue",
-		"toStringList", "deepClone"}, nil},
-	{"Match", ".", "Lib", []string{"Util"}, []string{"match", "matchMap", "matchList", "matchListSingle"}, nil},
-	{"Bklr", "cmd/bklr", "Bklr", nil, []string{"required", "requiredMap", "requiredList"}, nil},
-	{"Bkli", "cmd/bkli", "Bkli", nil, []string{"intersect", "intersectMap", "intersectMapMap", "intersectList", "intersectListList"}, nil},
+		"toStringList", "deepClone"}, nil, false},
+	{"Match", ".", "Lib", []string{"Util"}, []string{"match", "matchMap", "matchList", "matchListSingle"}, nil, false},
+	{"Bklr", "cmd/bklr", "Bklr", nil, []string{"required", "requiredMap", "requiredList"}, nil, false},
+	{"Bkli", "cmd/bkli", "Bkli", nil, []string{"intersect", "intersectMap", "intersectMapMap", "intersectList", "intersectListList"}, nil, false},
 	// higher-order helpers and their users (function literals that do not assign captured variables)
-	{"Filter", ".", "Lib", []string{"Util"}, []string{"filterMap", "filterList", "popListMapBoolValue", "popListMapStringValue"}, nil},
-	{"Output", ".", "Lib", []string{"Util", "Filter"}, []string{"filterOutput", "filterOutputMap", "filterOutputList"}, nil},
+	{"Filter", ".", "Lib", []string{"Util"}, []string{"filterMap", "filterList", "popListMapBoolValue", "popListMapStringValue",
+		"popListString", "popListMapValue"}, nil, false},
+	{"Output", ".", "Lib", []string{"Util", "Filter"}, []string{"filterOutput", "filterOutputMap", "filterOutputList"}, nil, false},
 	// the leaf functions of the $encode transforms (tolist / values / join's string conversion); fmt's %v is Bkl.fmtV
-	{"Encode", ".", "Lib", nil, []string{"process2ToListList", "process2ToListMap", "process2ToListValue", "process2ValuesMap", "toStringListPermissive"}, nil},
+	{"Encode", ".", "Lib", nil, []string{"process2ToListList", "process2ToListMap", "process2ToListValue", "process2ValuesMap", "toStringListPermissive"}, nil, false},
+	// the $encode dispatcher: arity checks, every transform, stacks; the third-party codecs behind GetFormat are parameters
+	{"Encode2", ".", "Lib", []string{"Encode"}, []string{"process2EncodeAny", "process2EncodeString"},
+		map[string]string{"GetFormat": "String → Go.Opaque × Option Err", ".MarshalStream": "Go.Opaque → List Val → String × Option Err"}, false},
 	// bkld: `reproduces` runs bkl's own merge through the public API; it is a parameter here and the model's merge in the theorem
 	{"Bkld", "cmd/bkld", "Bkld", nil, []string{"diff", "replaceable", "diffMap", "diffMapMap", "diffList", "diffListList", "replaceList"},
-		map[string]string{"reproduces": "List Val → List Val → List Val → Bool"}},
+		map[string]string{"reproduces": "List Val → List Val → List Val → Bool"}, false},
+	// merge.go: the functions return the merged value; they also update `dst` in place, which value semantics renders as
+	// "the caller uses only what is returned" (that callers do is the separation monitor's subject, not the translator's)
+	{"Merge", ".", "Lib", []string{"Util", "Filter", "Match"}, []string{"merge", "mergeMap", "mergeMapMap", "mergeList", "mergeListList",
+		"mergeListDelete", "mergeListMatch"}, nil, true},
 }
 
 type tr struct {
@@ -88,6 +97,9 @@ type tr struct {
 	externs map[string]string // extern name -> Lean type
 	needExt map[string][]string // listed function -> externs it needs (sorted)
 	pkgErr  string            // the package's one errors.New variable (mapped to Err.other)
+	owned   bool              // container parameters may be mutated (unit flag)
+	ho      map[string]bool   // listed functions with a function-valued parameter: translated in state-passing style
+	inHO    bool              // translating such a function: `st__` is the state of the function values it calls
 }
 
 type refuse struct{ msg string }
@@ -140,6 +152,9 @@ const (
 	kRune
 	kRunes // *utf8string.String
 	kFunc  // func(...) (...) over kinds of the fragment
+	kOpaque // pointers to structs (and slices of them): handed on, never looked into
+	kBytes  // []byte, only as the text it was converted from / is converted to
+	kHash   // hash.Hash: the text written to it so far
 	kBad
 )
 
@@ -151,6 +166,9 @@ func (t *tr) kindOf(ty types.Type) kind {
 	case *types.Named:
 		if x.Obj().Name() == "error" && x.Obj().Pkg() == nil {
 			return kErr
+		}
+		if x.Obj().Pkg() != nil && x.Obj().Pkg().Path() == "hash" && x.Obj().Name() == "Hash" {
+			return kHash
 		}
 		return t.kindOf(x.Underlying())
 	case *types.Alias:
@@ -167,11 +185,16 @@ func (t *tr) kindOf(ty types.Type) kind {
 			return kMap
 		}
 	case *types.Slice:
+		if b, ok := x.Elem().Underlying().(*types.Basic); ok && (b.Kind() == types.Uint8 || b.Kind() == types.Byte) {
+			return kBytes
+		}
 		switch t.kindOf(x.Elem()) {
 		case kAny:
 			return kList
 		case kStr:
 			return kStrList
+		case kOpaque:
+			return kOpaque
 		}
 	case *types.Basic:
 		switch {
@@ -189,6 +212,9 @@ func (t *tr) kindOf(ty types.Type) kind {
 	case *types.Pointer:
 		if s := x.Elem().String(); strings.HasSuffix(s, "utf8string.String") {
 			return kRunes
+		}
+		if _, isStruct := x.Elem().Underlying().(*types.Struct); isStruct {
+			return kOpaque
 		}
 	case *types.Signature:
 		if x.Variadic() || x.Recv() != nil {
@@ -225,6 +251,19 @@ func (t *tr) funcType(sig *types.Signature) string {
 	return "(" + out + "G (" + strings.Join(rs, " × ") + "))"
 }
 
+// … in state-passing style: A → B → σ → G ((R1 × R2) × σ)
+func (t *tr) funcTypeS(sig *types.Signature) string {
+	out := ""
+	for i := 0; i < sig.Params().Len(); i++ {
+		out += leanType(t.kindOf(sig.Params().At(i).Type())) + " → "
+	}
+	rs := []string{}
+	for i := 0; i < sig.Results().Len(); i++ {
+		rs = append(rs, leanType(t.kindOf(sig.Results().At(i).Type())))
+	}
+	return "(" + out + "σ → G ((" + strings.Join(rs, " × ") + ") × σ))"
+}
+
 func sigOf(ty types.Type) *types.Signature {
 	if ty == nil {
 		return nil
@@ -255,6 +294,10 @@ func leanType(k kind) string {
 		return "Char"
 	case kRunes:
 		return "(List Char)"
+	case kOpaque:
+		return "Go.Opaque"
+	case kBytes, kHash:
+		return "String"
 	}
 	return "?"
 }
@@ -332,7 +375,10 @@ var leanKeywords = map[string]bool{"at": true, "from": true, "end": true, "open"
 	"section": true, "variable": true, "where": true, "by": true, "instance": true, "structure": true, "class": true, "inductive": true, "mutual": true,
 	"Type": true, "Prop": true, "Sort": true, "import": true, "export": true, "local": true, "private": true, "protected": true, "return": true,
 	"for": true, "unless": true, "try": true, "catch": true, "finally": true, "mut": true, "using": true, "obtain": true, "calc": true, "fuel": true,
-	"e": true, "s": true}
+	"e": true, "s": true, "prefix": true, "infix": true, "infixl": true, "infixr": true, "postfix": true, "notation": true, "macro": true,
+	"syntax": true, "universe": true, "axiom": true, "example": true, "abbrev": true, "opaque": true, "deriving": true, "extends": true,
+	"attribute": true, "noncomputable": true, "partial": true, "unsafe": true, "termination_by": true, "decreasing_by": true, "set_option": true,
+	"some": true, "none": true, "true": true, "false": true, "not": true, "and": true, "or": true, "id": true, "max": true, "min": true, "toString": true}
 
 // ---------------------------------------------------------------- names
 
@@ -400,7 +446,16 @@ func callName(c *ast.CallExpr) string {
 		if x, ok := f.X.(*ast.Ident); ok {
 			return x.Name + "." + f.Sel.Name
 		}
+		if x, ok := f.X.(*ast.SelectorExpr); ok {
+			if y, ok := x.X.(*ast.Ident); ok {
+				return y.Name + "." + x.Sel.Name + "." + f.Sel.Name
+			}
+		}
 		return "." + f.Sel.Name
+	case *ast.ArrayType:
+		if id, ok := f.Elt.(*ast.Ident); ok && f.Len == nil && id.Name == "byte" {
+			return "[]byte"
+		}
 	}
 	return ""
 }
@@ -566,6 +621,12 @@ func (t *tr) ex(e ast.Expr, want kind, k func(string) string) string {
 				return t.ex(x.Index, kStr, func(i string) string { return done("(Go.mapIndex "+m+" "+i+")", kAny) })
 			})
 		}
+		if t.kindE(x.X) == kStrList {
+			// Go panics outside the slice; the functions of the fragment guard the access with len (Go.strAt is total)
+			return t.ex(x.X, kStrList, func(l string) string {
+				return t.ex(x.Index, kInt, func(i string) string { return done("(Go.strAt "+l+" "+i+")", kStr) })
+			})
+		}
 		t.fail(e, "index expression on a non-map (may panic) is outside the fragment")
 	case *ast.CompositeLit:
 		switch t.kindE(e) {
@@ -609,20 +670,37 @@ func (t *tr) ex(e ast.Expr, want kind, k func(string) string) string {
 			return done(terms[0], kinds[0])
 		})
 	case *ast.FuncLit:
-		return k(t.funcLit(x))
+		t.fail(e, "function literal outside the argument list of a listed higher-order function")
 	}
 	t.fail(e, "expression %T is outside the fragment", e)
 	return ""
 }
 
 // a function literal that only READS the variables it captures becomes a Lean lambda
-func (t *tr) funcLit(x *ast.FuncLit) string {
+// A function literal becomes a Lean lambda in state-passing style: the variables of the enclosing function that it ASSIGNS
+// are its state (taken as an extra argument, returned beside the results); what it only reads is captured lexically.
+// Returns the lambda, the state tuple (names) and its type.
+func (t *tr) funcLit(x *ast.FuncLit) (lambda string, state string, stateType string) {
 	sig := sigOf(t.typeOf(x))
 	if sig == nil || t.kindOf(sig) != kFunc {
 		t.fail(x, "function literal with a signature outside the fragment")
 	}
-	if outer := t.loopState(x.Body); len(outer) > 0 {
-		t.fail(x, "function literal assigns the captured variable %s (no value-semantic rendering)", outer[0].Name())
+	outer := t.loopState(x.Body)
+	sn, st := []string{}, []string{}
+	for _, o := range outer {
+		kd := t.kindOf(o.Type())
+		if kd == kBad || kd == kFunc {
+			t.fail(x, "function literal assigns a captured variable of a type outside the fragment")
+		}
+		sn = append(sn, t.nameOf(o))
+		st = append(st, leanType(kd))
+	}
+	state, stateType = "()", "Unit"
+	if len(sn) > 0 {
+		state, stateType = tuple(sn), "("+strings.Join(st, " × ")+")"
+		if len(sn) == 1 {
+			stateType = st[0]
+		}
 	}
 	params := ""
 	for _, f := range x.Type.Params.List {
@@ -638,18 +716,41 @@ func (t *tr) funcLit(x *ast.FuncLit) string {
 			}
 		}
 	}
-	saved := t.results
-	t.results = nil
+	saved, savedHO := t.results, t.inHO
+	t.results, t.inHO = nil, false
 	for i := 0; i < sig.Results().Len(); i++ {
 		t.results = append(t.results, t.kindOf(sig.Results().At(i).Type()))
 	}
-	top := ctx{ret: func(vals []string) string { return "(.ok " + tuple(vals) + ")" }}
+	top := ctx{ret: func(vals []string) string { return "(.ok (" + tuple(vals) + ", " + state + "))" }}
 	body := t.stmts(x.Body.List, top, func() string {
 		t.fail(x, "control reaches the end of the function literal")
 		return ""
 	})
-	t.results = saved
-	return "(fun" + params + " =>\n" + body + ")"
+	t.results, t.inHO = saved, savedHO
+	pat := "(_ : Unit)"
+	if len(sn) > 0 {
+		pat = "(" + state + " : " + stateType + ")"
+		if len(sn) == 1 {
+			pat = "(" + sn[0] + " : " + st[0] + ")"
+		}
+	}
+	return "(fun" + params + " " + pat + " =>\n" + body + ")", state, stateType
+}
+
+// does the body call a function VALUE (a function-typed parameter or local)?
+func (t *tr) callsFuncValue(n ast.Node) bool {
+	found := false
+	ast.Inspect(n, func(x ast.Node) bool {
+		if c, ok := x.(*ast.CallExpr); ok {
+			if id, ok := c.Fun.(*ast.Ident); ok {
+				if v, isVar := t.objOf(id).(*types.Var); isVar && sigOf(v.Type()) != nil {
+					found = true
+				}
+			}
+		}
+		return true
+	})
+	return found
 }
 
 // does e contain a call of a listed (hence monadic) function?  Library primitives are total pure terms.
@@ -690,6 +791,24 @@ func tuple(ts []string) string {
 	return "(" + strings.Join(ts, ", ") + ")"
 }
 
+// Lean name of an extern parameter
+func externName(key string) string {
+	n := strings.TrimPrefix(key, ".")
+	return strings.ToLower(n[:1]) + n[1:]
+}
+
+// an extern is a pure function returning a value or a pair
+func (t *tr) externResult(term string, rk []kind, k func([]string, []kind) string) string {
+	switch len(rk) {
+	case 1:
+		return k([]string{term}, rk)
+	case 2:
+		p := t.fresh("x")
+		return "(let " + p + " := " + term + "\n" + k([]string{p + ".1", p + ".2"}, rk) + ")"
+	}
+	panic(refuse{"extern with more than two results"})
+}
+
 // call: evaluates a call; k receives one term per result
 func (t *tr) call(c *ast.CallExpr, k func([]string, []kind) string) string {
 	name := callName(c)
@@ -700,10 +819,43 @@ func (t *tr) call(c *ast.CallExpr, k func([]string, []kind) string) string {
 			if c.Ellipsis != token.NoPos {
 				t.fail(c, "variadic call outside the fragment")
 			}
+			if t.ho[name] {
+				// a higher-order callee: its function argument must be a literal; the literal's assigned captures are
+				// threaded through the callee as state
+				fi := -1
+				for i, kd := range pk {
+					if kd == kFunc {
+						if fi >= 0 {
+							t.fail(c, "two function arguments")
+						}
+						fi = i
+					}
+				}
+				lit, ok := c.Args[fi].(*ast.FuncLit)
+				if !ok {
+					t.fail(c, "the function argument of %s is not a function literal", name)
+				}
+				rest := append(append([]ast.Expr{}, c.Args[:fi]...), c.Args[fi+1:]...)
+				restK := append(append([]kind{}, pk[:fi]...), pk[fi+1:]...)
+				return t.exs(rest, restK, func(args []string) string {
+					lambda, state, _ := t.funcLit(lit)
+					all := append(append([]string{}, args[:fi]...), lambda)
+					all = append(all, args[fi:]...)
+					callee := name + "'"
+					if t.fuel[name] {
+						callee += " fuel"
+					}
+					rs := make([]string, len(rk))
+					for i := range rs {
+						rs[i] = t.fresh("r")
+					}
+					return t.bindG("("+callee+" "+strings.Join(all, " ")+" "+state+")", "("+tuple(rs)+", "+state+")", func() string { return k(rs, rk) })
+				})
+			}
 			return t.exs(c.Args, pk, func(args []string) string {
 				callee := name + "'"
 				for _, ex := range t.needExt[name] {
-					callee += " " + ex
+					callee += " " + externName(ex)
 				}
 				if t.fuel[name] {
 					if !t.curFuel {
@@ -737,7 +889,10 @@ func (t *tr) call(c *ast.CallExpr, k func([]string, []kind) string) string {
 					for i := range rs {
 						rs[i] = t.fresh("r")
 					}
-					return t.bindG("("+t.nameOf(v)+" "+strings.Join(args, " ")+")", tuple(rs), func() string { return k(rs, rk) })
+					if !t.inHO {
+						t.fail(c, "call of a function value outside a higher-order listed function")
+					}
+					return t.bindG("("+t.nameOf(v)+" "+strings.Join(args, " ")+" st__)", "("+tuple(rs)+", st__)", func() string { return k(rs, rk) })
 				})
 			}
 		}
@@ -748,15 +903,69 @@ func (t *tr) call(c *ast.CallExpr, k func([]string, []kind) string) string {
 				for i := 0; i < sig.Params().Len(); i++ {
 					pk = append(pk, t.kindOf(sig.Params().At(i).Type()))
 				}
-				if sig.Results().Len() != 1 {
-					t.fail(c, "extern with several results")
+				rk := []kind{}
+				for i := 0; i < sig.Results().Len(); i++ {
+					rk = append(rk, t.kindOf(sig.Results().At(i).Type()))
 				}
-				rk := t.kindOf(sig.Results().At(0).Type())
-				return t.exs(c.Args, pk, func(args []string) string { return one("("+id.Name+" "+strings.Join(args, " ")+")", rk) })
+				return t.exs(c.Args, pk, func(args []string) string {
+					return t.externResult("("+externName(id.Name)+" "+strings.Join(args, " ")+")", rk, k)
+				})
 			}
 		}
 	}
+	// method externs (f.MarshalStream(...)) and function externs with several results
+	if sel, ok := c.Fun.(*ast.SelectorExpr); ok {
+		if lt, isExt := t.externs["."+sel.Sel.Name]; isExt && lt != "" && t.kindE(sel.X) == kOpaque {
+			sig := sigOf(t.typeOf(c.Fun))
+			if sig == nil {
+				t.fail(c, "method extern without a signature")
+			}
+			pk := []kind{}
+			for i := 0; i < sig.Params().Len(); i++ {
+				pk = append(pk, t.kindOf(sig.Params().At(i).Type()))
+			}
+			rk := []kind{}
+			for i := 0; i < sig.Results().Len(); i++ {
+				rk = append(rk, t.kindOf(sig.Results().At(i).Type()))
+			}
+			return t.ex(sel.X, kOpaque, func(recv string) string {
+				return t.exs(c.Args, pk, func(args []string) string {
+					return t.externResult("("+externName("."+sel.Sel.Name)+" "+recv+" "+strings.Join(args, " ")+")", rk, k)
+				})
+			})
+		}
+	}
 	switch name {
+	case "[]byte", "string":
+		if len(c.Args) == 1 {
+			src := t.kindE(c.Args[0])
+			if (name == "[]byte" && src == kStr) || (name == "string" && (src == kBytes || src == kStr)) {
+				res := kBytes
+				if name == "string" {
+					res = kStr
+				}
+				return arg(0, src, func(a string) string { return one(a, res) })
+			}
+		}
+	case "strings.Split":
+		return arg(0, kStr, func(a string) string {
+			return arg(1, kStr, func(b string) string { return one("("+a+".splitOn "+b+")", kStrList) })
+		})
+	case "strings.Join":
+		return arg(0, kStrList, func(a string) string {
+			return arg(1, kStr, func(b string) string { return one("("+b+".intercalate "+a+")", kStr) })
+		})
+	case "base64.StdEncoding.EncodeToString":
+		return arg(0, kBytes, func(a string) string { return one("(Bkl.base64 "+a+")", kStr) })
+	case "sha256.New":
+		return one("\"\"", kHash)
+	case "hex.EncodeToString":
+		// hex.EncodeToString(h.Sum(nil)) for a SHA-256 hash h
+		if inner, ok := c.Args[0].(*ast.CallExpr); ok {
+			if sel, ok := inner.Fun.(*ast.SelectorExpr); ok && sel.Sel.Name == "Sum" && len(inner.Args) == 1 && isNil(inner.Args[0]) && t.kindE(sel.X) == kHash {
+				return t.ex(sel.X, kHash, func(h string) string { return one("(Bkl.sha256Hex "+h+")", kStr) })
+			}
+		}
 	case "slices.Clone":
 		kd := t.kindE(c.Args[0])
 		return arg(0, kd, func(a string) string { return one(a, kd) })
@@ -944,6 +1153,7 @@ func (t *tr) call(c *ast.CallExpr, k func([]string, []kind) string) string {
 // ctx.ret wraps the values of a `return`; ctx.next / ctx.brk are the loop exits (nil outside loops)
 
 type ctx struct {
+	retRaw func(term string) string // (state-passing functions) return an already packed ((results), st__) value
 	ret  func(vals []string) string
 	next func() string // `continue` and falling off the end of a loop body
 	brk  func() string
@@ -997,7 +1207,17 @@ func (t *tr) stmts(ss []ast.Stmt, c ctx, k func() string) string {
 		for _, sp := range gd.Specs {
 			vs := sp.(*ast.ValueSpec)
 			if len(vs.Values) != 0 {
-				t.fail(s, "var with initialiser: use :=")
+				if len(vs.Values) != 1 || len(vs.Names) != 1 {
+					t.fail(s, "var with several initialisers")
+				}
+				o := t.objOf(vs.Names[0])
+				kd := t.kindOf(o.Type())
+				if kd == kBad || kd == kFunc {
+					t.fail(s, "variable of a type outside the fragment")
+				}
+				return t.ex(vs.Values[0], kd, func(a string) string {
+					return "(let " + t.nameOf(o) + " : " + leanType(kd) + " := " + a + "\n" + rest() + ")"
+				})
 			}
 			for _, id := range vs.Names {
 				o := t.objOf(id)
@@ -1054,6 +1274,16 @@ func (t *tr) stmts(ss []ast.Stmt, c ctx, k func() string) string {
 			return t.ex(call.Args[1], kStr, func(key string) string {
 				return "(let " + names[0] + " := fdel " + names[0] + " " + key + "\n" + rest() + ")"
 			})
+		}
+		if call, ok := s.X.(*ast.CallExpr); ok {
+			if sel, ok := call.Fun.(*ast.SelectorExpr); ok && sel.Sel.Name == "Write" && len(call.Args) == 1 && t.kindE(sel.X) == kHash {
+				if id, ok := sel.X.(*ast.Ident); ok {
+					names, _ := t.assignTargets([]ast.Expr{id}, false)
+					return t.ex(call.Args[0], kBytes, func(b string) string {
+						return "(let " + names[0] + " : String := " + names[0] + " ++ " + b + "\n" + rest() + ")"
+					})
+				}
+			}
 		}
 		t.fail(s, "expression statement outside the fragment")
 	case *ast.IncDecStmt:
@@ -1120,6 +1350,37 @@ func (t *tr) assign(s *ast.AssignStmt, c ctx, rest func() string) string {
 				})
 			}
 			t.fail(s, "index assignment on this type")
+		}
+	}
+	if len(s.Lhs) > 1 && len(s.Rhs) == 1 {
+		for i, l := range s.Lhs {
+			if ix, ok := l.(*ast.IndexExpr); ok {
+				id, ok := ix.X.(*ast.Ident)
+				call, ok2 := s.Rhs[0].(*ast.CallExpr)
+				if !ok || !ok2 || t.kindE(ix.X) != kMap {
+					t.fail(s, "assignment shape outside the fragment")
+				}
+				mnames, _ := t.assignTargets([]ast.Expr{id}, false)
+				t.checkMutation(id, s)
+				others := append(append([]ast.Expr{}, s.Lhs[:i]...), s.Lhs[i+1:]...)
+				onames, okinds := t.assignTargets(others, false)
+				return t.ex(ix.Index, kStr, func(key string) string {
+					return t.call(call, func(ts []string, ks []kind) string {
+						if len(ts) != len(s.Lhs) {
+							t.fail(s, "result count mismatch")
+						}
+						out := "let " + mnames[0] + " := fset " + mnames[0] + " " + key + " " + t.conv(s, ts[i], ks[i], kAny) + "\n"
+						rest2 := append(append([]string{}, ts[:i]...), ts[i+1:]...)
+						restK := append(append([]kind{}, ks[:i]...), ks[i+1:]...)
+						for j, n := range onames {
+							if n != "_" {
+								out += "let " + n + " : " + leanType(okinds[j]) + " := " + t.conv(s, rest2[j], restK[j], okinds[j]) + "\n"
+							}
+						}
+						return "(" + out + rest() + ")"
+					})
+				})
+			}
 		}
 	}
 	names, kinds := t.assignTargets(s.Lhs, s.Tok == token.DEFINE)
@@ -1431,6 +1692,9 @@ func (t *tr) rangeLoopL(s *ast.RangeStmt, label string, c ctx, rest func() strin
 			t.fail(s, "loop variable of a type outside the fragment")
 		}
 	}
+	if t.inHO && t.callsFuncValue(s.Body) {
+		sn = append(sn, "st__")
+	}
 	st := "()"
 	if len(sn) > 0 {
 		st = tuple(sn)
@@ -1466,6 +1730,17 @@ func (t *tr) rangeLoopL(s *ast.RangeStmt, label string, c ctx, rest func() strin
 				" | .ok (.inr Go.Exit.cont) => " + c.next() + "\n" +
 				" | .ok (.inl " + st + ") =>\n" + rest() + ")"
 		}
+		if t.inHO && !exitMode {
+			// a return inside the loop carries the state as it is at that point
+			inner.ret = func(vals []string) string { return "(.ok (Go.Loop.ret (" + tuple(vals) + ", st__)))" }
+			inner.retRaw = func(term string) string { return "(.ok (Go.Loop.ret " + term + "))" }
+			body := t.stmts(s.Body.List, inner, inner.next)
+			rr := t.fresh("rr")
+			return "(match Go.forRange (ρ := (" + t.resultType() + " × σ)) " + fmt.Sprintf(iter, xs) + " " + st + " (fun " + pat + " " + st + " =>\n" + body + ") with\n" +
+				" | .error e__ => .error e__\n" +
+				" | .ok (.inr " + rr + ") => " + c.retRaw(rr) + "\n" +
+				" | .ok (.inl " + st + ") =>\n" + rest() + ")"
+		}
 		body := t.stmts(s.Body.List, inner, inner.next)
 		r := t.fresh("r")
 		rk := t.results
@@ -1493,6 +1768,16 @@ func fresh(e ast.Expr) bool {
 	return false
 }
 
+func (t *tr) isParam(v *types.Var) bool {
+	sig := t.info.Defs[t.fn.Name].Type().(*types.Signature)
+	for i := 0; i < sig.Params().Len(); i++ {
+		if sig.Params().At(i) == v {
+			return true
+		}
+	}
+	return false
+}
+
 // a mutation of `id` at statement `at` is accepted when the textually preceding assignment to the variable is a
 // fresh container, no loop separates the two unless it contains both, and the variable is not used as a value
 // (stored, passed, appended) between that assignment and the last mutation
@@ -1515,7 +1800,18 @@ func (t *tr) checkMutation(id *ast.Ident, at ast.Stmt) {
 		}
 		return true
 	})
+	if lastAssign == nil && t.owned {
+		// a parameter of an `owned` unit that was not re-assigned before: the caller handed it over
+		if v, ok := o.(*types.Var); ok && t.isParam(v) {
+			return
+		}
+	}
 	if lastAssign == nil || lastRhs == nil || !fresh(lastRhs) {
+		if t.owned && lastAssign != nil {
+			if v, ok := o.(*types.Var); ok && t.isParam(v) {
+				return // re-assigned from a call result or append: still the function's own value
+			}
+		}
 		t.fail(at, "mutation of %s, whose reaching assignment is not a fresh container (value semantics would be unsound)", id.Name)
 	}
 	// loops: every loop containing the mutation but not the assignment must not assign the variable at all
@@ -1635,7 +1931,7 @@ func (t *tr) function(name string) (text string, err error) {
 	t.results = rk
 	params := ""
 	for _, ex := range t.needExt[name] {
-		params += " (" + ex + " : " + t.externs[ex] + ")"
+		params += " (" + externName(ex) + " : " + t.externs[ex] + ")"
 	}
 	extParams := params
 	params = ""
@@ -1646,7 +1942,7 @@ func (t *tr) function(name string) (text string, err error) {
 				t.fail(f, "parameter type outside the fragment")
 			}
 			if pk[i] == kFunc {
-				params += " (" + t.nameOf(t.objOf(id)) + " : " + t.funcType(sigOf(t.objOf(id).Type())) + ")"
+				params += " (" + t.nameOf(t.objOf(id)) + " : " + t.funcTypeS(sigOf(t.objOf(id).Type())) + ")"
 			} else {
 				params += " (" + t.nameOf(t.objOf(id)) + " : " + leanType(pk[i]) + ")"
 			}
@@ -1674,11 +1970,20 @@ func (t *tr) function(name string) (text string, err error) {
 	if len(rk) == 0 {
 		t.fail(fd, "function without a result")
 	}
+	t.inHO = t.ho[name]
 	top := ctx{ret: func(vals []string) string { return "(.ok " + tuple(vals) + ")" }}
+	if t.inHO {
+		top.ret = func(vals []string) string { return "(.ok (" + tuple(vals) + ", st__))" }
+		top.retRaw = func(term string) string { return "(.ok " + term + ")" }
+		extParams = " {σ : Type}" + extParams
+		params += " (st__ : σ)"
+		rt = "(" + rt + ") × σ"
+	}
 	body := t.stmts(fd.Body.List, top, func() string {
 		t.fail(fd, "control reaches the end of the function")
 		return ""
 	})
+	t.inHO = false
 	p := t.fset.Position(fd.Pos())
 	doc := fmt.Sprintf("/-- %s:%s -/\n", filepath.Base(p.Filename), name)
 	if t.fuel[name] {
@@ -1872,6 +2177,18 @@ func main() {
 			}
 		}
 		fuelOf[u.name] = t.fuel
+		t.owned = u.owned
+		t.ho = map[string]bool{}
+		for n := range t.listed {
+			if fd := t.decls[n]; fd != nil {
+				pk, _ := t.sigKinds(fd)
+				for _, kd := range pk {
+					if kd == kFunc {
+						t.ho[n] = true
+					}
+				}
+			}
+		}
 		// externs: every listed function that reaches one takes it as a leading parameter
 		t.externs = u.externs
 		t.needExt = map[string][]string{}
@@ -1883,6 +2200,11 @@ func main() {
 					if id, ok := c.Fun.(*ast.Ident); ok {
 						if _, isExt := u.externs[id.Name]; isExt {
 							direct[n][id.Name] = true
+						}
+					}
+					if sel, ok := c.Fun.(*ast.SelectorExpr); ok {
+						if _, isExt := u.externs["."+sel.Sel.Name]; isExt {
+							direct[n]["."+sel.Sel.Name] = true
 						}
 					}
 				}
